@@ -1,3 +1,32 @@
+/-
+C02 from capture file to output file, second part (`Props/C02File.lean` is the first): what its statement still excluded.
+
+  `quic_capture_exact2` / `_encoded`   `exportFile` on a capture in which
+     (1) the connection is ONE interleaved history (`Props/C02Capstone3.lean`): datagrams of coalesced packets of several
+         levels, both directions in any interleaving (`QEv2.mix`: Initial / Handshake packets optionally closed by a
+         1-RTT packet — server 1-RTT data before the client's Finished, 1-RTT behind Handshake in one datagram), followed by
+         a 1-RTT-only part with any key updates (`QEv2.one`);
+     (3) datagrams of OTHER QUIC connections stand anywhere between them (`QEv2.other`: anything the main loop takes for
+         QUIC), separated from this connection in the sense of Props/C04 (`QuicSeparated`, both ways: other 4-tuple, their
+         DCIDs none of this session's connection IDs and vice versa, no connection ID of one a prefix of the other's
+         short-header bytes) — lifted through `C04.quic_route_exact`: the session list of the run is the interleaving of the
+         two solo runs, so this connection still has exactly ONE session, in the same state;
+     and packets the loop does not take for QUIC (`QEv2.foreign`, `C02File.NotQuic`).
+     Conclusion: the output file (unless scapy / dpkt refuse a frame: write-abort alternative) reads back, as the block of
+     the connection's session, exactly `blockOf2`: one UDP frame per DATAGRAM whose 1-RTT packet carried STREAM data.
+  `QuicCapture2`                        all hypotheses in one place, each field with its justification.
+  `quic_capture_session2`               the core: the QUIC view is a `Merge` of the connection's calls (`ownView`) and the
+                                        others' (`othView`) — `quicView_mixPhase`, `quicView_onePhase2`; the own run is one
+                                        session (`quicRun_mix`: routing of long- and short-header datagrams in the mixed
+                                        part, `C02File.quicRun_one`); its export is `quic_connection_exact_interleaved`.
+  `export_of_quic_session_among`        the file layers around one of several QUIC sessions.
+  `Ex.quic_file2_instance`              non-vacuity: a concrete capture file (0.5-RTT data coalesced behind the server's
+                                        Handshake packet, the client's request coalesced behind its Finished, a key update,
+                                        a datagram of another flow), every hypothesis discharged by evaluation.
+Not in this file: 0-RTT packets (see C02Capstone3, item 2), the no-abort variants (as `C02File.quic_capture_exact_ranges`;
+with other QUIC sessions exporting too, `OthersFit` is no longer trivial).
+Core Lean only.
+-/
 import TLX.Props.C02File
 import TLX.Props.C02Capstone3
 import TLX.Props.C04
@@ -452,8 +481,8 @@ theorem quic_capture_session2 (hl : H.Lawful) (h32 : H.sha256.outLen = 32) (L : 
     (hrouteB : Routes1 (wireOf H Pc L sel .v1 (rfcGen (hashOf H sel.hash) sel.keyLen sa ca 0))
       (trk0.runM (d0 :: itemsA.map (·.2.2))).cc (trk0.runM (d0 :: itemsA.map (·.2.2))).sc
       ((oneItems2 fl evsA.length evsB).map (·.2)))
-    (htimes : ((shortsOf (d0 :: itemsA.map (·.2.2)) ++ (oneItems2 fl evsA.length evsB).map (·.2)).map
-      fun d => (d.x.ts, d.x.srv)).Pairwise (· ≠ ·))
+    (hadj : C02Out.DistinctAdjacent false ((shortsOf (d0 :: itemsA.map (·.2.2)) ++
+      (oneItems2 fl evsA.length evsB).map (·.2)).map fun d => inDg d.x))
     (hsep1 : QuicSeparated (quicMachine maskFn H Pc (capInfo ((evsA ++ evsB).map QEv2.cap))) (optsOf args ports pm)
       (ownView fl ((fileKeysOf keyFile).getD []) ((kl0, p0, d0) :: itemsA) (oneItems2 fl evsA.length evsB))
       (othView (optsOf args ports pm) ((fileKeysOf keyFile).getD []) 0 (evsA ++ evsB)))
@@ -597,7 +626,7 @@ theorem quic_capture_session2 (hl : H.Lawful) (h32 : H.sha256.outLen = 32) (L : 
       obtain ⟨y, hy, rfl⟩ := List.mem_map.mp hx
       obtain ⟨u1, u2, u3⟩ := (hcarO y hy).1
       exact ⟨u1, u2, by rw [hc0c, ← hc1c]; exact u3⟩)
-    (by rw [hmap, ht1]; exact hsend) (by rw [hmap]; exact htimes)
+    (by rw [hmap, ht1]; exact hsend) (by rw [hmap]; exact hadj)
   have hc1' : mixFeedAll QM c0 ((kl0, p0, d0) :: itemsA) = c1 := by rw [← hc1]; rfl
   rw [hc1', hmap] at r2
   -- the other connections stay apart (Props/C04)
@@ -659,9 +688,10 @@ structure QuicCapture2 (L : SealLaws Pc) (args : Args) (keyFile : Option Keylog.
   routesB : Routes1 (wireOf H Pc L sel .v1 (rfcGen (hashOf H sel.hash) sel.keyLen sa ca 0))
       (trk0.runM (d0 :: itemsA.map (·.2.2))).cc (trk0.runM (d0 :: itemsA.map (·.2.2))).sc
       ((oneItems2 fl evsA.length evsB).map (·.2))
-  /-- the datagrams that carry 1-RTT packets differ pairwise in (capture microsecond, direction) -/
-  distinct : ((shortsOf (d0 :: itemsA.map (·.2.2)) ++ (oneItems2 fl evsA.length evsB).map (·.2)).map
-      fun d => (d.x.ts, d.x.srv)).Pairwise (· ≠ ·)
+  /-- CONSECUTIVE datagrams with STREAM data differ in (capture microsecond, direction): the output builder merges adjacent
+      frames of equal time and direction into one datagram (`C02Out.build_groups_needs_distinct`) -/
+  distinct : C02Out.DistinctAdjacent false ((shortsOf (d0 :: itemsA.map (·.2.2)) ++
+      (oneItems2 fl evsA.length evsB).map (·.2)).map fun d => inDg d.x)
   /-- the OTHER QUIC connections of the capture are separated from this one in the sense of Props/C04 (`QuicSeparated`: at
       no moment of either run alone does a session exist that recognises a datagram of the other — other 4-tuple, DCID not
       among its connection IDs, none of its connection IDs a prefix of the short-header bytes), both ways -/
@@ -718,3 +748,304 @@ theorem quic_capture_exact2_encoded {L : SealLaws Pc} {args : Args} {keyFile : O
 
 end Capture2
 end TLX.Props.C02File2
+
+/-! ### non-vacuity -/
+namespace TLX.Props.C02File2.Ex
+open TLX TLX.MainLoop TLX.Spec.Demux TLX.Dissect TLX.OutBytes TLX.Export TLX.Lemmas.MainLoop
+open TLX.Props.C01File TLX.Spec.FrameBuild TLX.Spec.TlsCapture TLX.Spec.QuicCapture
+open TLX.Spec.QuicSender TLX.Spec.QuicConnection TLX.Spec.QuicPackets TLX.QuicPipeline TLX.Props.C02Capstone
+open TLX.Quic.Session TLX.Cipher TLX.Props.C02Session TLX.Spec.QuicFrames
+open TLX.Spec.TlsHello TLX.Spec.TlsHandshakeFraming TLX.Props.C02Capstone.ExConf
+open TLX.Spec.KeySchedules TLX.Props.C02Capstone3 TLX.Props.C02File
+open TLX.Props.C01File.Ex (timeAt arp notMinusOne cMac sMac args0 ports0)
+open TLX.Props.C02File.Ex (H Pc L m5 maskFn sel hs hs_ok chS shS caS saS w0 w2 usAt cidS0 cidS cidC qCI qSI qSH qCH fl udpOf
+  dgFrame isDg_mk dns dnsDg dnsFrame dnsU flDns keyText keys keylog0 wfCI wfSI wfSH wfCH pkCI pkSI pkSH tA tB o dcid0
+  arp_notQuic dns_notQuic)
+
+/-- server: 1-RTT data (0.5-RTT) in the SAME datagram as its Initial and Handshake packets, before the client's Finished -/
+def oS : Dg1 :=
+  ⟨{ level := .oneRtt, srv := true, ts := usAt 2, pn := 0, pnLen := 1,
+     frames := [.stream false ⟨3, w0⟩ none (some w0) [0x48, 0x49], .padding 3], dcid := cidC, gen := 0 }, m5⟩
+/-- client: its Finished and the first request in one datagram -/
+def oC : Dg1 :=
+  ⟨{ level := .oneRtt, srv := false, ts := usAt 4, pn := 0, pnLen := 1,
+     frames := [.stream true ⟨0, w0⟩ none (some w0) [0x47, 0x45, 0x54], .padding 3], dcid := cidS, gen := 0 }, m5⟩
+/-- the 1-RTT-only part: the server updates its keys, the client follows -/
+def b5 : Dg1 :=
+  ⟨{ level := .oneRtt, srv := true, ts := usAt 5, pn := 1, pnLen := 2,
+     frames := [.ping, .stream false ⟨3, w0⟩ (some ⟨2, w0⟩) none [0x4f, 0x4b]], dcid := cidC, gen := 1, lowBits := 5 }, m5⟩
+def b7 : Dg1 :=
+  ⟨{ level := .oneRtt, srv := false, ts := usAt 7, pn := 1, pnLen := 1,
+     frames := [.stream false ⟨4, w0⟩ none (some w0) [0x4d, 0x4f, 0x52, 0x45], .padding 3], dcid := cidS, gen := 1 }, m5⟩
+
+def d0 : DgM := ⟨false, usAt 1, [qCI], none⟩
+def dS : DgM := ⟨true, usAt 2, [qSI, qSH], some oS⟩
+def dC : DgM := ⟨false, usAt 4, [qCH], some oC⟩
+
+def wM : DgM → Bytes := DgM.wire H Pc L d0.dcid sel shS chS saS caS
+def w1 : Dg1 → Bytes := wireOf H Pc L sel .v1 (rfcGen (hashOf H sel.hash) sel.keyLen saS caS 0)
+
+def mixEv (n : Nat) (d : DgM) : QEv2 := .mix (timeAt n) (dgFrame d.srv (wM d)) (udpOf d.srv (wM d)) d
+def oneEv (n : Nat) (d : Dg1) : QEv2 := .one (timeAt n) (dgFrame d.x.srv (w1 d)) (udpOf d.x.srv (w1 d)) d
+
+/-- a datagram of ANOTHER flow that the main loop takes for QUIC: fixed bit and long-header bit set, cut short after three
+    bytes (`handle_quic_packet` returns on it) -/
+def flOther : Flow := ⟨false, [10, 0, 0, 9], 40000, [10, 0, 0, 2], 443⟩
+def othU : Udp := ⟨40000, 443, 0, [0xc3, 0, 0]⟩
+def othFrame : Spec.FrameBuild.Frame :=
+  ⟨sMac, cMac, .v4 ⟨0, 9, false, false, 64, 0, [10, 0, 0, 9], [10, 0, 0, 2], []⟩, .udp othU, []⟩
+def oth (n : Nat) : CapEv := ⟨timeAt n, othFrame.encode, viewOf othFrame⟩
+
+def evsA : List QEv2 := [.foreign arp, mixEv 1 d0, mixEv 2 dS, .other (oth 3), mixEv 4 dC]
+def evsB : List QEv2 := [oneEv 5 b5, .foreign (dns 6), oneEv 7 b7]
+
+def itemsA : List (List Keylog.Key × MainLoop.Pkt × DgM) :=
+  [(keys, dgPkt fl true (wM dS) 2, dS), (keys, dgPkt fl false (wM dC) 4, dC)]
+def p0 : MainLoop.Pkt := dgPkt fl false (wM d0) 1
+
+theorem first0 : mixItems fl keys 0 evsA = (keys, p0, d0) :: itemsA := rfl
+theorem ones0 : (oneItems2 fl evsA.length evsB).map (·.2) = [b5, b7] := rfl
+theorem shorts0 : shortsOf (d0 :: itemsA.map (·.2.2)) = [oS, oC] := rfl
+theorem mixIns0 : allInsM (d0 :: itemsA.map (·.2.2)) = hs.ins := by decide +kernel
+theorem keyed0 : (trk0.runM (d0 :: itemsA.map (·.2.2))).keyed = true := by decide +kernel
+
+
+theorem wfS : WellFormedSeq oS.x.frames := by
+  simp [oS, WellFormedSeq, QFrame.wf, QFrame.greedy, optOk, optFits]; decide +kernel
+theorem wfC : WellFormedSeq oC.x.frames := by
+  simp [oC, WellFormedSeq, QFrame.wf, QFrame.greedy, optOk, optFits]; decide +kernel
+theorem wfB5 : WellFormedSeq b5.x.frames := by
+  simp [b5, WellFormedSeq, QFrame.wf, QFrame.greedy, optOk, optFits]; decide +kernel
+theorem wfB7 : WellFormedSeq b7.x.frames := by
+  simp [b7, WellFormedSeq, QFrame.wf, QFrame.greedy, optOk, optFits]; decide +kernel
+
+def t1 : Trk := trk0.dgm d0
+def t2 : Trk := t1.dgm dS
+def t3 : Trk := t2.dgm dC
+
+theorem pkCH' : HsPkOk maskFn H Pc L d0.dcid sel shS chS t2 qCH :=
+  ⟨⟨by decide, by decide, by decide, by decide, by decide, by decide, by decide +kernel, by decide +kernel⟩,
+    by decide +kernel, by decide +kernel, by decide +kernel, wfCH, by decide +kernel, rfl, by decide⟩
+
+theorem shortS : ShortOk maskFn H Pc L sel saS caS (t1.run dS.longs) dS oS :=
+  ⟨rfl, rfl, by decide, by decide +kernel, rfl, rfl, by decide +kernel, wfS,
+    ⟨by decide, by decide +kernel, rfl, by decide⟩⟩
+theorem shortC : ShortOk maskFn H Pc L sel saS caS (t2.run dC.longs) dC oC :=
+  ⟨rfl, rfl, by decide, by decide +kernel, rfl, rfl, by decide +kernel, wfC,
+    ⟨by decide, by decide +kernel, rfl, by decide⟩⟩
+
+theorem mixDgs0 : MixDgs maskFn H Pc L d0.dcid sel shS chS saS caS trk0 (d0 :: itemsA.map (·.2.2)) := by
+  refine ⟨⟨?_, by decide +kernel, ⟨pkCI, trivial⟩, .inl (by decide), ?_⟩,
+    ⟨?_, by decide +kernel, ⟨pkSI, pkSH, trivial⟩, .inl (by decide), ?_⟩,
+    ⟨?_, by decide +kernel, ⟨pkCH', trivial⟩, .inl (by decide), ?_⟩, trivial⟩
+  · intro q hq; simp only [d0, List.mem_singleton] at hq; subst hq; exact ⟨rfl, rfl⟩
+  · intro o ho; cases ho
+  · intro q hq; simp only [dS, List.mem_cons, List.not_mem_nil, or_false] at hq; rcases hq with rfl | rfl <;> exact ⟨rfl, rfl⟩
+  · intro o ho; cases ho; exact shortS
+  · intro q hq; simp only [dC, List.mem_singleton] at hq; subst hq; exact ⟨rfl, rfl⟩
+  · intro o ho; cases ho; exact shortC
+
+
+theorem lenM (d : DgM) (h : d ∈ [d0, dS, dC]) : (wM d).length < 60000 := by
+  simp only [List.mem_cons, List.not_mem_nil, or_false] at h
+  rcases h with rfl | rfl | rfl <;> decide +kernel
+
+theorem len1 (d : Dg1) (h : d ∈ [b5, b7]) : (w1 d).length < 60000 := by
+  simp only [List.mem_cons, List.not_mem_nil, or_false] at h
+  rcases h with rfl | rfl <;> decide +kernel
+
+theorem mixEv_ok (n : Nat) (d : DgM) (h : d ∈ [d0, dS, dC]) (hts : d.ts = usAt n) (hh : HdrOkM d) :
+    IsDg fl d.srv (dgFrame d.srv (wM d)) (udpOf d.srv (wM d)) ∧ (udpOf d.srv (wM d)).payload = wM d ∧
+      d.ts = Container.usOfFloat (timeAt n).toFloat ∧ HdrOkM d :=
+  ⟨isDg_mk _ _ (lenM d h), rfl, hts, hh⟩
+
+theorem othDg : IsDg flOther false othFrame othU := by
+  simp [IsDg, Spec.FrameBuild.Frame.WF, Upper.WF, Udp.WF, V4.WF, othFrame, othU, Upper.encode, Udp.encode, be2, flOther,
+    cMac, sMac]
+
+theorem described0 : QDescribed2 fl wM w1 o (evsA ++ evsB) := by
+  intro ev hev
+  simp only [evsA, evsB, List.cons_append, List.nil_append, List.mem_cons, List.not_mem_nil, or_false] at hev
+  rcases hev with rfl | rfl | rfl | rfl | rfl | rfl | rfl | rfl
+  · exact arp_notQuic
+  · exact mixEv_ok 1 d0 (by simp) rfl (.inl ⟨qCI, [], rfl, pkCI.shape, by decide, by decide⟩)
+  · exact mixEv_ok 2 dS (by simp) rfl (.inl ⟨qSI, [qSH], rfl, pkSI.shape, by decide, by decide⟩)
+  · exact dissect_dg flOther false othFrame othU othDg
+  · exact mixEv_ok 4 dC (by simp) rfl (.inl ⟨qCH, [], rfl, pkCH'.shape, by decide, by decide⟩)
+  · exact ⟨isDg_mk _ _ (len1 b5 (by simp)), rfl, rfl, by decide, by decide⟩
+  · exact dns_notQuic 6
+  · exact ⟨isDg_mk _ _ (len1 b7 (by simp)), rfl, rfl, by decide, by decide⟩
+
+theorem times0 : ∀ e ∈ (evsA ++ evsB).map QEv2.cap, Ingest.isMinusOne e.t = false := by
+  intro e he
+  simp only [evsA, evsB, List.cons_append, List.nil_append, List.map_cons, List.map_nil, List.mem_cons, List.not_mem_nil,
+    or_false] at he
+  rcases he with rfl | rfl | rfl | rfl | rfl | rfl | rfl | rfl <;> exact notMinusOne _
+
+def tF : Trk := trk0.runM (d0 :: itemsA.map (·.2.2))
+
+theorem tF_eq : chachaOf tF.core = false ∧ tF.tc.app = 0 ∧ tF.ts.app = 0 ∧ tF.cc = [cidC] ∧ tF.sc = [cidS0, cidS] := by
+  decide +kernel
+
+theorem send1_0 : Send1 maskFn H Pc L sel .v1 (rfcGen (hashOf H sel.hash) sel.keyLen saS caS 0)
+    (quicHp (hashOf H sel.hash) caS sel.keyLen) (quicHp (hashOf H sel.hash) saS sel.keyLen)
+    (chachaOf tF.core) 0 0 tF.tc.app tF.ts.app tF.cc tF.sc ((oneItems2 fl evsA.length evsB).map (·.2)) := by
+  obtain ⟨e1, e2, e3, e4, e5⟩ := tF_eq
+  rw [ones0, e1, e2, e3, e4, e5]
+  refine ⟨rfl, by decide, by decide, by decide +kernel, wfB5, ⟨by decide, by decide +kernel, rfl, by decide⟩, by decide,
+    rfl, by decide, by decide, by decide +kernel, wfB7, ⟨by decide, by decide +kernel, rfl, by decide⟩, by decide, trivial⟩
+
+theorem routesB0 : Routes1 w1 tF.cc tF.sc ((oneItems2 fl evsA.length evsB).map (·.2)) := by
+  obtain ⟨_, _, _, e4, e5⟩ := tF_eq
+  rw [ones0, e4, e5]
+  refine ⟨?_, ?_, trivial⟩ <;> decide +kernel
+
+theorem routesA0 : RoutesM wM (trk0.dgm d0) (itemsA.map (·.2.2)) :=
+  ⟨fun h => absurd h (by decide), fun h => absurd h (by decide), trivial⟩
+
+theorem distinct0 : C02Out.DistinctAdjacent false ((shortsOf (d0 :: itemsA.map (·.2.2)) ++
+    (oneItems2 fl evsA.length evsB).map (·.2)).map fun d => inDg d.x) := by
+  rw [shorts0, ones0]
+  have hf : (([oS, oC] ++ [b5, b7]).map (fun d => inDg d.x)).filter (C02Out.hasExported false) =
+      ([oS, oC] ++ [b5, b7]).map (fun d => inDg d.x) := by
+    rw [List.filter_eq_self]
+    intro d hd
+    simp only [List.cons_append, List.nil_append, List.map_cons, List.map_nil, List.mem_cons, List.not_mem_nil, or_false] at hd
+    rcases hd with rfl | rfl | rfl | rfl <;> rw [hasExported_inDg] <;> decide
+  unfold C02Out.DistinctAdjacent
+  rw [hf]
+  simp [C02Out.InDgram.key, inDg, Quic.UdpOut.AdjDistinct, oS, oC, b5, b7]
+
+
+def pO : MainLoop.Pkt := pktOf 3 (oth 3).d
+
+theorem othView0 : othView o keys 0 (evsA ++ evsB) = [⟨keys, .tooShort, pO⟩] := by
+  have hp : pO = ⟨.udp, clientEp flOther, serverEp flOther, othU.payload, true, 3⟩ := by
+    show pktOf 3 (viewOf othFrame) = _
+    rw [pktOf_dg flOther false othFrame othU othDg]; rfl
+  simp only [evsA, evsB, List.cons_append, List.nil_append, othView, List.append_nil]
+  show quicView o keys [.frame pO] = _
+  rw [hp, quicView_dgram o rfl _ rfl 0xc3 [0, 0] rfl (by decide) keys]
+  have : parseHeader1 0xc3 [0, 0] = .tooShort := by decide
+  rw [this]
+
+theorem sepOwn0 : QuicSeparated (quicMachine maskFn H Pc (capInfo ((evsA ++ evsB).map QEv2.cap))) o
+    (ownView fl keys ((keys, p0, d0) :: itemsA) (oneItems2 fl evsA.length evsB)) (othView o keys 0 (evsA ++ evsB)) := by
+  intro n s _ x hx hne
+  rw [othView0] at hx
+  simp only [List.mem_singleton] at hx
+  subst hx
+  exact absurd rfl hne
+
+theorem sepOther0 : QuicSeparated (quicMachine maskFn H Pc (capInfo ((evsA ++ evsB).map QEv2.cap))) o
+    (othView o keys 0 (evsA ++ evsB)) (ownView fl keys ((keys, p0, d0) :: itemsA) (oneItems2 fl evsA.length evsB)) := by
+  intro n s hs
+  rw [othView0] at hs
+  have : quicRun (quicMachine maskFn H Pc (capInfo ((evsA ++ evsB).map QEv2.cap))) o []
+      (List.take n [(⟨keys, .tooShort, pO⟩ : QIn Keylog.Key)]) = [] := by
+    cases n with
+    | zero => rfl
+    | succ m => simp [quicRun, quicHandleH]
+  rw [this] at hs
+  cases hs
+
+/-- **every hypothesis of `quic_capture_exact2` holds** for this capture -/
+theorem capture2_0 : QuicCapture2 maskFn H Pc L args0 (some keyText) [] ports0 fl hs chS shS caS saS none sel evsA evsB
+    keys p0 d0 itemsA where
+  lawful := Props.C15.sizedToy_lawful
+  sha256 := rfl
+  times := times0
+  noc := rfl
+  nometa := rfl
+  pmOk := rfl
+  portsOk := rfl
+  endpoints := by decide
+  clientPort := by decide +kernel
+  hsOk := hs_ok
+  suite := by decide
+  outLen := by decide
+  saLen := rfl
+  caLen := rfl
+  keylog := keylog0
+  first := first0
+  fromClient := rfl
+  firstLong := by decide
+  described := described0
+  phaseA := by decide
+  phaseB := by decide
+  mixDgs := mixDgs0
+  mixIns := mixIns0
+  keyed := keyed0
+  routesA := routesA0
+  send1 := send1_0
+  routesB := routesB0
+  distinct := distinct0
+  sepOwn := sepOwn0
+  sepOther := sepOther0
+
+
+open TLX.Props.C01File.Ex (cv0 cevOf legacy_wf filterMap_map_some scale_cev)
+open TLX.Props.C02File.Ex (dgFrame_length)
+
+def cevs0 : List Spec.Containers.Ev := ((evsA ++ evsB).map QEv2.cap).map cevOf
+
+theorem evs_bounds : ∀ e ∈ (evsA ++ evsB).map QEv2.cap, ∃ k, k < 100 ∧ e.t = timeAt k ∧ e.buf.length < 70000 := by
+  intro e he
+  simp only [evsA, evsB, List.cons_append, List.nil_append, List.map_cons, List.map_nil, List.mem_cons, List.not_mem_nil,
+    or_false] at he
+  rcases he with rfl | rfl | rfl | rfl | rfl | rfl | rfl | rfl
+  · exact ⟨0, by decide, rfl, by decide⟩
+  · exact ⟨1, by decide, rfl, by simp only [mixEv, QEv2.cap, dgFrame_length]; have := lenM d0 (by simp); omega⟩
+  · exact ⟨2, by decide, rfl, by simp only [mixEv, QEv2.cap, dgFrame_length]; have := lenM dS (by simp); omega⟩
+  · exact ⟨3, by decide, rfl, by decide +kernel⟩
+  · exact ⟨4, by decide, rfl, by simp only [mixEv, QEv2.cap, dgFrame_length]; have := lenM dC (by simp); omega⟩
+  · exact ⟨5, by decide, rfl, by simp only [oneEv, QEv2.cap, dgFrame_length]; have := len1 b5 (by simp); omega⟩
+  · exact ⟨6, by decide, rfl, by decide +kernel⟩
+  · exact ⟨7, by decide, rfl, by simp only [oneEv, QEv2.cap, dgFrame_length]; have := len1 b7 (by simp); omega⟩
+
+theorem cwf0 : cv0.WF cevs0 := by
+  refine ⟨by decide, by decide, by decide, by decide, by decide, legacy_wf _ _ rfl ?_ 0⟩
+  intro ev hev
+  simp only [cevs0, List.mem_map] at hev
+  obtain ⟨e, ⟨c, hc, rfl⟩, rfl⟩ := hev
+  obtain ⟨k, hk, ht, hl⟩ := evs_bounds _ (List.mem_map.mpr ⟨c, hc, rfl⟩)
+  refine ⟨_, _, rfl, ?_, by omega⟩
+  rw [ht]
+  simp only [timeAt, Spec.Containers.LegacyVariant.unitsPerSecond, if_true]
+  have : ((1700000000 : Int).toNat * 10 ^ 9 + (1000 + k)) / 10 ^ 9 = 1700000000 := by
+    have : (1700000000 : Int).toNat = 1700000000 := rfl
+    rw [this]; omega
+  rw [this]; decide
+
+theorem citems0 : cevs0.filterMap (Spec.Containers.scale cv0) = ((evsA ++ evsB).map QEv2.cap).map CapEv.item := by
+  unfold cevs0
+  apply filterMap_map_some
+  intro e he
+  obtain ⟨k, hk, ht, _⟩ := evs_bounds e he
+  exact scale_cev _ k hk ht
+
+/-- what the export must contain: the server's early reply `HI` (sent behind its Handshake packet, before the client's
+    Finished), the client's `GET` (sent behind its Finished), then `OK` and `MORE` under updated keys -/
+def out0 : List Pipeline.OutPkt :=
+  [⟨usAt 2, sMac, cMac, ⟨[10, 0, 0, 2], 443⟩, ⟨[10, 0, 0, 1], 50000⟩, false, 0, 0, 0, [0x48, 0x49], true⟩,
+   ⟨usAt 4, cMac, sMac, ⟨[10, 0, 0, 1], 50000⟩, ⟨[10, 0, 0, 2], 443⟩, false, 0, 0, 0, [0x47, 0x45, 0x54], true⟩,
+   ⟨usAt 5, sMac, cMac, ⟨[10, 0, 0, 2], 443⟩, ⟨[10, 0, 0, 1], 50000⟩, false, 0, 0, 0, [0x4f, 0x4b], true⟩,
+   ⟨usAt 7, cMac, sMac, ⟨[10, 0, 0, 1], 50000⟩, ⟨[10, 0, 0, 2], 443⟩, false, 0, 0, 0, [0x4d, 0x4f, 0x52, 0x45], true⟩]
+
+theorem block0 : blockOf2 (maskFn := maskFn) (H := H) (Pc := Pc) args0 [] ports0 fl evsA evsB p0 d0 itemsA = out0 := rfl
+
+/-- **Non-vacuity of `quic_capture_exact2`.** The capture FILE (nanosecond libpcap): an ARP request; the client's Initial;
+    ONE server datagram with its Initial (ServerHello), its Handshake packet (the rest of its flight) AND a 1-RTT packet
+    with early reply data; a truncated long-header datagram of another flow (taken for QUIC by the loop); ONE client datagram
+    with its Handshake packet (Finished) AND its first 1-RTT request; then, with updated keys, a server and a client 1-RTT
+    datagram, a DNS query between them. Every hypothesis of `QuicCapture2` is discharged by evaluation (`capture2_0`). So
+    the export contains exactly `HI`, `GET`, `OK`, `MORE` — four frames, one per datagram with STREAM data. -/
+theorem quic_file2_instance :
+    (∃ e, exportFile maskFn H Pc args0 cv0.isLegacy (some keyText) (Spec.Containers.encode cv0 cevs0) = .abort (.write e)) ∨
+    ∃ f, exportFile maskFn H Pc args0 cv0.isLegacy (some keyText) (Spec.Containers.encode cv0 cevs0) = .file f ∧
+      ReadsBack f out0 := by
+  have h := quic_capture_exact2_encoded capture2_0 cv0 cevs0 cwf0 citems0
+  rw [block0] at h
+  exact h
+
+end TLX.Props.C02File2.Ex
